@@ -11,6 +11,15 @@ BASE_NOTE = ("Trusted: Coq 8.16.1 kernel + vm_compute (no native_compute); Print
              "rustc/cargo. The model is hand-written and tied to /repo by the correspondence run of every check.")
 
 CLAIMS = {
+    "C01": dict(
+        text=("Theorems (Props/C01.v): for every core tree (any nesting), document, registry and incoming context offset the model of "
+              "interpreter.rs returns exactly the value of an independent denotational semantics (Spec/Semantics.v: comprehension style, "
+              "closed-form slices), by induction over unbounded trees; plus the clauses the property names (null for absent/wrongly-typed "
+              "subjects, nulls dropped, one-level flatten, short-circuit, truthiness with 0 truthy, ascending key order, last duplicate wins). "
+              "Correspondence: random core trees x random documents through Expression::search on hand-built ASTs, compliance expressions x "
+              "documents end to end; every evalast case is also compared with the extracted specification (spec oracle)."),
+        ref="5 (C01), 4.2", note=BASE_NOTE + " Unmodelled: slicing an array of 2^31 or more elements. Comparison nodes delegate to C10's model.",
+        technique="Coq proof (interpreter model = denotational semantics) + model/spec/implementation correspondence"),
     "C07": dict(
         text=("Theorems (Props/C07.v, all inputs, no bound on array length below 2^31 or on the 32-bit triples): the model of "
               "variable.rs::slice/adjust_slice_endpoint and of the Index arm equals the closed-form Python/JMESPath slice rule; "
